@@ -89,6 +89,10 @@ impl<A: DecoderArithmetic> Decoder<A> {
         for (x, &y) in self.input_llrs.iter_mut().zip(llrs.iter()) {
             *x = self.arithmetic.input_llr_quantize(y)
         }
+        // Until the first iteration is done the output LLRs are the input LLRs
+        // (otherwise a decode with zero iterations would report the hard
+        // decision on the output LLRs of the previous codeword).
+        self.output_llrs.copy_from_slice(&self.input_llrs);
 
         // First variable messages use only input LLRs
         for (v, &llr) in self.input_llrs.iter().enumerate() {
